@@ -62,7 +62,7 @@ func runAndRead(ho, ro *out, id int, c hcase, withMeta bool) {
 		stream = append(stream, wr...)
 	}
 	stream = append(stream, final...)
-	readAllExpect(ro, fmt.Sprint(id), stream, withMeta, c.expect)
+	readAllEncoded(ro, fmt.Sprint(id), stream, withMeta, c.expect)
 }
 
 func genSameSchemaDocs(r *rng, o schemaOpts, count int) [][]elem {
@@ -145,7 +145,7 @@ func init() {
 			}
 			docs := genSameSchemaDocs(r, o, count)
 			id++
-			runAndRead(ho, ro, id, sameSchemaCase(kind, wrappers[r.intn(len(wrappers))], n, docs), false)
+			runAndRead(ho, ro, id, sameSchemaCase(kind, pickWrapper(r, kind), n, docs), false)
 		}
 		r.tsSeconds = false
 		// 2. exhaustive delta matrices with entries in {0,+1,-1}
